@@ -99,15 +99,9 @@ def walk(block: bytes) -> tuple[list[dict], dict | None]:
 
 
 def pmsi_malformed(value: bytes) -> bool:
-    """RFC 6514 5: flags(1) type(1) label(3) tunnel identifier (shape per type)"""
-    if len(value) < 5:
-        return True
-    ttype = value[1]
-    if ttype == 0:
-        return len(value) != 5
-    if ttype == 6:
-        return len(value) not in (9, 21)
-    return False
+    """RFC 6514 5: flags(1) type(1) label(3) tunnel identifier.  Only the fixed part is demanded: the identifier is
+    taken as opaque (its shape per tunnel type matters to MCAST-VPN routes, which are not generated here)"""
+    return len(value) < 5
 
 
 def value_fault(code: int, value: bytes, session: dict, addpath) -> str | None:
@@ -170,8 +164,10 @@ def analyse(body: bytes, session: dict) -> dict:
         seen.add(code)
         if code not in FLAGS:
             if not flags & 0x80:
-                # RFC 4271 6.3: unrecognised well-known attribute (RFC 7606 does not revise it)
-                fault(code, 'unrecognized-wellknown', RESET, i)
+                # RFC 4271 6.3: unrecognised well-known attribute (RFC 7606 does not revise it): session reset.
+                # Behind an earlier fault the bytes may no longer be attribute boundaries at all (a wrong length
+                # field shifts everything after it): there the earlier fault decides and withdraw is taken too
+                fault(code, 'unrecognized-wellknown', WITHDRAW if faults else RESET, i)
             continue
         opt, trans = FLAGS[code]
         flags_bad = bool(flags & 0x80) != bool(opt) or bool(flags & 0x40) != bool(trans)
@@ -238,6 +234,9 @@ def analyse(body: bytes, session: dict) -> dict:
         'faults': faults,
         'allowed': allowed,
         'dropped_codes': sorted({tlvs[i]['code'] for i in dropped}),
+        # code -> why its TLV (or a later copy of it) is left out by the discard reading
+        'dropped_why': {tlvs[f['index']]['code']: f['kind'] for f in faults if f['index'] in dropped},
+        'kept_tlvs': [t for i, t in enumerate(tlvs) if i not in dropped],
         'kept_body': kept_body,
         'nlri': nlri,
         'withdrawn': withdrawn,
